@@ -8,11 +8,14 @@ from .. import core, findlib
 from .. import gen_replace_c05 as G
 
 RULE = ("structures: periodic cells (orthorhombic, triclinic with + and − tilts, arbitrarily rotated) with 1–3 planted, "
-        "perturbed (≤ atol/8) copies of a search pattern in random / axis-aligned poses, origins random, face-hugging or "
+        "perturbed (≤ atol/8; in ~45 % of the cases a non-default tolerance 0.1 / 0.2 / 0.01 with copies distorted by up to "
+        "0.6·atol, for 0.01 also beyond it — every occurrence an independent search with the SAME tolerance reports must be "
+        "the set the replacement works on) copies of a search pattern in random / axis-aligned poses, origins random, face-hugging or "
         "at cell corners, plus decoys; search patterns: all of findlib.PATTERNS (asymmetric, symmetric, planar, collinear, "
-        "1–2 atoms) given in a shifted frame (first atom not at the origin); replacement patterns derived from them "
+        "1–2 atoms, with their long axis along x, y or z; ~12 % of the structures hold UNPERTURBED copies turned by exactly "
+        "180°; ~30 % of the calls pass axis hints axisp1/axisp2) given in a shifted frame (first atom not at the origin); replacement patterns derived from them "
         "(all search atoms kept + atoms sticking 3–9 Å out, some kept + new, all new incl. one exactly on the first "
-        "search atom, one element substituted, atoms on the pattern axis), every replacement atom tagged by a unique "
+        "search atom, one element substituted, one atom re-placed 0.02–0.09 Å away with the same element, atoms on the pattern axis), every replacement atom tagged by a unique "
         "charge; replace_all on/off; each case is run a second time with search and replacement pattern moved jointly "
         "by a random rigid motion. Non-trivial = at least one match replaced, at least one atom inserted, and at least "
         "one inserted atom had to be wrapped (its unwrapped image lies outside the cell).")
@@ -73,6 +76,28 @@ def multiset_equal_mod_lattice(a, b, cell, tol):
 
 # ------------------------------------------------------------------ the property, stated on the real result
 
+def independent_find(case, scale=1.0):
+    """the occurrences a plain search with the SAME tolerance (times `scale`) reports in the original structure
+    (sorted atom index sets)"""
+    import random as _random
+    import mofun.mofun as mm
+    s = core.atoms_from_json(case["s"])
+    p = core.atoms_from_json(case["p"])
+    _random.seed(case["seed"])
+    np.random.seed(case["seed"] % (2 ** 32))
+    with core.quiet():
+        h = list(case.get("hints") or [None, None, None])
+        found = mm.find_pattern_in_structure(s, p, atol=case["atol"] * scale, axisp1_idx=h[0], axisp2_idx=h[1], opoint_idx=h[2])
+    return sorted(tuple(sorted(int(i) for i in t)) for t in found)
+
+
+def occurrence_bracket(case):
+    """(clearly inside, possibly inside): the occurrences at 0.7·atol and at 1.4·atol. A copy whose verdict flips
+    between the two is ON the tolerance boundary (its verdict may depend on the pattern's frame: which of two
+    equally far atoms becomes the orientation point) and is outside the property's quantifier."""
+    return independent_find(case, 0.7), independent_find(case, 1.4)
+
+
 def oracle_c05(case, out):
     """case: generator dict; out: findlib.run_replace(...) record. Returns (None | text, stats)."""
     stats = {"inserted": 0, "wrapped": 0, "matches": 0}
@@ -80,6 +105,25 @@ def oracle_c05(case, out):
         return "replacement raised %s" % out.get("err"), stats
     if not out.get("inputs_unchanged", True):
         return "replace_pattern_in_structure modified one of its inputs", stats
+    # (0) the replacement works on exactly the occurrences that a search with this tolerance reports; with
+    #     replace_fraction = 1 every one of them is replaced (and placed: clauses 1, 2), and nothing else
+    lo, hi = occurrence_bracket(case)
+    key = lambda t: tuple(sorted(int(i) for i in t))
+    rep = sorted(key(m["idx"]) for m in (out.get("used") or []))
+    seen = sorted(key(t) for t in out["found"][0]) if out.get("found") else rep
+    miss = [t for t in lo if t not in seen]
+    extra = [t for t in seen if t not in hi]
+    if miss:
+        return ("a search with atol=%g (even with 0.7·atol) reports the occurrence(s) %s; the replacement (same atol) "
+                "considered only %d: %s" % (case["atol"], miss[:4], len(seen), seen[:4])), stats
+    if extra:
+        return ("the replacement (atol=%g) works on %s, which a search does not report even with 1.4·atol"
+                % (case["atol"], extra[:4])), stats
+    if case.get("fraction", 1.0) >= 1.0 and [t for t in lo if t not in rep]:
+        return ("a search with atol=%g reports %d clear occurrence(s) %s, the replacement (same atol) replaced %d: %s"
+                % (case["atol"], len(lo), lo[:4], len(rep), rep[:4])), stats
+    if any(r not in hi for r in rep):
+        return "replaced a site that is not an occurrence at atol=%g: %s" % (case["atol"], rep[:4]), stats
     res = out["ok"]
     cell = cell_of(case["s"])
     cinv = np.linalg.inv(cell)
@@ -167,6 +211,10 @@ def oracle_joint(case, out, out2, motion):
     if "ok" not in out:
         return None
     if [m["idx"] for m in out["used"]] != [m["idx"] for m in out2["used"]]:
+        key = lambda o: sorted(tuple(sorted(m["idx"])) for m in o["used"])
+        if key(out) != key(out2) and case["info"].get("distorted", "none") == "none" and case.get("fraction", 1.0) >= 1.0:
+            # copies well inside the tolerance: the SET of replaced occurrences may not depend on the pose of the patterns
+            return "moved patterns: other occurrences are replaced (%s vs %s)" % (key(out)[:4], key(out2)[:4])
         return "skip"                     # a different numbering was chosen among symmetric candidates
     pname = case["info"]["pattern"]
     pure = motion["q"] == [0, 0, 0, 1]
@@ -178,7 +226,20 @@ def oracle_joint(case, out, out2, motion):
         el = elements(res)
         ps = positions(res)
         return [(el[i], ps[i]) for i, a in enumerate(res["atoms"]) if fl(a["q"]) not in drop]
-    return multiset_equal_mod_lattice(view(out["ok"]), view(out2["ok"]), cell, 1e-6)
+    tol = 1e-6
+    if any(v is not None for v in (case.get("hints") or [])):
+        # with caller-chosen axis points the remaining choices (second axis point, orientation point) can be TIES that
+        # rounding breaks differently for the moved pattern; the two frames then differ by the copy's own deviation from
+        # the pattern (times the lever arm of the replacement atoms): equal only within a bound proportional to the
+        # tolerance — and not comparable at all when the copies were distorted on purpose
+        if case["info"].get("distorted", "none") != "none":
+            return "skip"
+        P, Rp = positions(case["p"]), positions(case["r"])
+        dd = [float(np.linalg.norm(a - b)) for i, a in enumerate(P) for b in P[i + 1:]]
+        lmin = min([d for d in dd if d > 1e-9] or [1.0])
+        reach = float(max(np.linalg.norm(x - P[0]) for x in Rp)) if len(Rp) else 0.0
+        tol = 4 * (case["atol"] + 1e-5 * float(np.abs(cell).sum())) * (1 + reach / lmin) + 1e-6
+    return multiset_equal_mod_lattice(view(out["ok"]), view(out2["ok"]), cell, tol)
 
 
 # ------------------------------------------------------------------ tie: real end-to-end vs. model
@@ -228,7 +289,7 @@ def run_real(case, motion=None):
         pj, rj = G.move_pattern_json(pj, motion), G.move_pattern_json(rj, motion)
     try:
         return findlib.run_replace(case["s"], pj, rj, atol=case["atol"], replace_all=case["replace_all"], seed=case["seed"],
-                                   fraction=case.get("fraction", 1.0))
+                                   fraction=case.get("fraction", 1.0), hints=tuple(case.get("hints") or (None, None, None)))
     except (ValueError, OverflowError) as e:      # the result cannot be canonicalised: NaN / inf coordinates
         return {"err": "error:non-finite-result (%s)" % (str(e)[:60],), "used": None, "inputs_unchanged": True}
 
@@ -241,6 +302,10 @@ def check_case(ctx, case, with_joint=True):
     ctx.case(case, nontrivial=(bad is None and stats["matches"] > 0 and stats["inserted"] > 0 and stats["wrapped"] > 0))
     for key in ("cell", "pattern", "boundary", "rp"):
         ctx.count("%s:%s" % (key, info[key]))
+    ctx.count("atol:%g" % case["atol"])
+    ctx.count("hints:%s" % ("none" if not any(v is not None for v in (case.get("hints") or [])) else "given"))
+    ctx.count("exact180:%s" % info.get("exact180", False))
+    ctx.count("distorted:%s" % info.get("distorted", "none"))
     ctx.count("matches:%d" % min(stats["matches"], 4))
     ctx.count("replace_all:%s" % case["replace_all"])
     ctx.count("fraction:%s" % case.get("fraction", 1.0))
@@ -256,7 +321,7 @@ def check_case(ctx, case, with_joint=True):
         out2 = run_real(case, motion)
         jb = oracle_joint(case, out, out2, motion)
         if jb == "skip":
-            ctx.count("joint:skipped-different-symmetric-choice")
+            ctx.count("joint:skipped (different symmetric numbering, or hints on distorted copies)")
         else:
             ctx.count("joint:compared")
             if jb:
